@@ -143,4 +143,45 @@ theorem cols_commit_effect {db db' : Db} {r : Nat} {T : Txn} {tok : Nat}
             · exact h
             · exact absurd h hm
 
+/-! ### the new images of an update are the images of exactly the rows it kills -/
+
+theorem rowAt_of_mem {t : Table} (hw : t.WF) {f : Frag} (hf : f ∈ t.frags) (o : Nat) : t.rowAt (f.id, o) = f.rows[o]? := by
+  unfold Table.rowAt
+  rw [get_of_mem hw hf]
+
+theorem frag_rows_of_addrs {t : Table} {f : Frag} (hr : ∀ o, t.rowAt (f.id, o) = f.rows[o]?) (p : Row → Bool) (L : List Nat) :
+    ((L.filter (fun o => match f.rows[o]? with | some r => p r | none => false)).map (fun o => (f.id, o))).filterMap t.rowAt
+      = L.filterMap (fun o => match f.rows[o]? with | some r => if p r then some r else none | none => none) := by
+  induction L with
+  | nil => rfl
+  | cons o L ih =>
+    cases hro : f.rows[o]? with
+    | none =>
+      rw [List.filter_cons_of_neg (by simp [hro]), List.filterMap_cons_none (by simp [hro])]
+      exact ih
+    | some r =>
+      by_cases hp : p r = true
+      · rw [List.filter_cons_of_pos (by simp [hro, hp]), List.map_cons,
+          List.filterMap_cons_some (b := r) (by rw [hr o, hro]),
+          List.filterMap_cons_some (b := r) (by simp [hro, hp]), ih]
+      · rw [List.filter_cons_of_neg (by simp [hro, hp]), List.filterMap_cons_none (by simp [hro, hp])]
+        exact ih
+
+/-- scanning the rows that satisfy `p` = reading the stored rows at the addresses the same scan reports -/
+theorem rows_of_addrs {t : Table} (hw : t.WF) (p : Row → Bool) : (t.addrsWhere p).filterMap t.rowAt = t.rowsWhere p := by
+  unfold Table.addrsWhere Table.rowsWhere
+  have : ∀ l : List Frag, (∀ f ∈ l, f ∈ t.frags) →
+      (l.flatMap (fun f => (f.liveIdx.filter (fun o => match f.rows[o]? with | some r => p r | none => false)).map
+          (fun o => (f.id, o)))).filterMap t.rowAt
+      = l.flatMap (fun f => f.liveIdx.filterMap
+          (fun o => match f.rows[o]? with | some r => if p r then some r else none | none => none)) := by
+    intro l
+    induction l with
+    | nil => intro _; rfl
+    | cons f r ih =>
+      intro hm
+      rw [List.flatMap_cons, List.flatMap_cons, List.filterMap_append,
+        frag_rows_of_addrs (rowAt_of_mem hw (hm f (by simp))) p f.liveIdx, ih (fun g hg => hm g (by simp [hg]))]
+  exact this t.frags (fun _ h => h)
+
 end LanceModel.C04
